@@ -15,15 +15,9 @@ for p in props:
     if not os.path.exists(path):
         na.append({"property_id": pid, "reason": "no check registered yet in this round of the build (see DESIGN.md section 4 for the planned monitor)"})
         continue
-    src = open(path).read()
-    ns = {}
-    # MANIFEST_* constants are plain literals at module level
-    mod_consts = {}
-    for name in ("LEVEL_TEXT", "LEVEL_NOTE", "TECHNIQUE", "DESIGN_REF"):
-        import re
-        m = re.search(r"^%s\s*=\s*(\(.*?\)|\".*?\")\s*$" % name, src, re.S | re.M)
-        if m:
-            mod_consts[name] = eval(m.group(1))
+    sys.path.insert(0, os.path.join(VERIF, ".deps"))
+    mod = importlib.import_module("aomon.checks." + pid.lower())
+    mod_consts = {n: getattr(mod, n) for n in ("LEVEL_TEXT", "LEVEL_NOTE", "TECHNIQUE", "DESIGN_REF") if hasattr(mod, n)}
     checks.append({
         "property_id": pid,
         "quick_cmd": "./vcheck %s quick" % pid,
